@@ -1,6 +1,7 @@
 import ZapVerif.Model.Derive
 import ZapVerif.Model.Slices
 import ZapVerif.Proofs.Derive
+import ZapVerif.Gen.SliceOwn
 /-! # C07 — logger context is exact and isolated across derived loggers
 
 Pure semantics: a derivation path builds a core (`derive`) by the real per-wrapper `With` push-downs and lazy wrappers;
@@ -163,5 +164,54 @@ example :
         [.eager [a], .lazy 9 [{ key := 2, ref := some 0 }], .eager [b]]) [] [] =
       [.leaf 1 true [{ key := 1 }, { key := 2, val := some 5 }, { key := 3 }],
        .leaf 2 false [{ key := 1 }, { key := 2, ref := some 0 }, { key := 3 }]] := by decide
+
+/-! ### slice ownership (regenerated table Gen/SliceOwn: every site in zap's sources where a slice may end up shared) -/
+
+/-- The reviewed sites. Pattern A (an `append` to a field or slice parameter whose result goes elsewhere — the aliasing hazard
+    behind "sibling loggers see each other's fields") does not occur at all; F (`x[:0]` reuse) occurs only on pooled objects
+    that own their storage (Buffer.Reset, putSliceEncoder, CheckedEntry.reset); K (a slice parameter kept as it is) occurs
+    in the array-field constructors and Binary/ByteString (the Field holds the caller's slice until it is encoded, as
+    documented), in DictObject, in NewTee / NewMultiWriteSyncer (the variadic slice becomes the combinator), in NewLazyWith
+    (by design: evaluated at first use) and in zaptest.WrapOptions. -/
+def reviewedSliceSites : List (String × String × String × String) := [
+  ("array.go", "Bools", "K", "bools()"),
+  ("array.go", "ByteStrings", "K", "byteStringsArray()"),
+  ("array.go", "Complex128s", "K", "complex128s()"),
+  ("array.go", "Complex64s", "K", "complex64s()"),
+  ("array.go", "Durations", "K", "durations()"),
+  ("array.go", "Float32s", "K", "float32s()"),
+  ("array.go", "Float64s", "K", "float64s()"),
+  ("array.go", "Int16s", "K", "int16s()"),
+  ("array.go", "Int32s", "K", "int32s()"),
+  ("array.go", "Int64s", "K", "int64s()"),
+  ("array.go", "Int8s", "K", "int8s()"),
+  ("array.go", "Ints", "K", "ints()"),
+  ("array.go", "Strings", "K", "stringArray()"),
+  ("array.go", "Times", "K", "times()"),
+  ("array.go", "Uint16s", "K", "uint16s()"),
+  ("array.go", "Uint32s", "K", "uint32s()"),
+  ("array.go", "Uint64s", "K", "uint64s()"),
+  ("array.go", "Uint8s", "K", "uint8s()"),
+  ("array.go", "Uintptrs", "K", "uintptrs()"),
+  ("array.go", "Uints", "K", "uints()"),
+  ("buffer/buffer.go", "*Buffer.Reset", "F", "b.bs[:0]"),
+  ("field.go", "Binary", "K", "Interface: val"),
+  ("field.go", "ByteString", "K", "Interface: val"),
+  ("field.go", "DictObject", "K", "dictObject()"),
+  ("field.go", "dictField", "K", "dictObject()"),
+  ("zapcore/console_encoder.go", "putSliceEncoder", "F", "e.elems[:0]"),
+  ("zapcore/entry.go", "*CheckedEntry.reset", "F", "ce.cores[:0]"),
+  ("zapcore/lazy_with.go", "NewLazyWith", "K", "fields: fields"),
+  ("zapcore/tee.go", "NewTee", "K", "multiCore()"),
+  ("zapcore/write_syncer.go", "NewMultiWriteSyncer", "K", "multiWriteSyncer()"),
+  ("zaptest/logger.go", "WrapOptions", "K", "opts.zapOptions = zapOpts")
+]
+
+/-- today's source has exactly the reviewed slice-sharing sites: a new `append(h.groups, g)`-style derivation, an in-place
+    filter of a caller's slice, or a constructor that starts keeping its argument fails here until it is reviewed -/
+theorem slice_ownership_as_reviewed : Gen.SliceOwn.rows = reviewedSliceSites := by decide
+
+/-- no aliasing append anywhere in the sources -/
+theorem no_aliasing_append : (Gen.SliceOwn.rows.filter fun r => r.2.2.1 == "A") = [] := by decide
 
 end ZapVerif.C07
